@@ -2,11 +2,14 @@ import FcpModel
 /-!
 # C11 — the parser is total: every input yields a schema or a renderable error
 
-Partial.  That no exception escapes is CPython behaviour (Lark's `VisitError`, beartype,
-`assert`): a model cannot exhibit it, only predict that none should occur, and the harness
-checks it on three malformed streams.  What is proved is about the *reference* front end:
-it is total by construction (`Except`), and the line numbers it attaches to tokens and to
-lexical errors always exist in the source.
+That no exception escapes is CPython behaviour (Lark's `VisitError`, beartype, `assert`): a
+model cannot exhibit it, only predict that none should occur, and the harness checks it on
+five malformed streams; in that respect the level stays "partial".  What is proved is about
+the *reference* front end: it is total by construction (`Except`), and **every line it cites
+for a lexical or a syntax error exists in the source** (`C11_error_lines`): the lexer's
+bookkeeping (`lex_lines`) composed with a safety invariant carried through every production of
+the parser (`FcpModel/SyntaxLines.lean`: an error's line is the line of a token of the input,
+or the running last line, itself a token line).
 -/
 namespace Fcp
 open Syntax Frontend
@@ -16,6 +19,19 @@ theorem C11_lexer_lines_partial (src : String) :
     (∀ ts, lex src = .ok ts → ∀ t ∈ ts, 1 ≤ t.line ∧ t.line ≤ 1 + nl src.toList) ∧
     (∀ e, lex src = .error e → 1 ≤ e.line ∧ e.line ≤ 1 + nl src.toList) :=
   lex_lines src
+
+/-- **cited lines exist**: whatever the input text, a lexical or syntax error of the reference
+front end cites a line between 1 and the number of lines of that text -/
+theorem C11_error_lines (src : String) (e : SynErr) (h : parseText src = .error e) :
+    1 ≤ e.line ∧ e.line ≤ 1 + nl src.toList :=
+  parseText_lines src e h
+
+/-- and that is the line the error value of the loader carries, together with the file -/
+theorem C11_error_value_lines (fs : FS) (fuel : Nat) (path : List String) (src : String) (e : SynErr)
+    (h : parseText src = .error e) :
+    loadFile fs (fuel + 1) path src = .error [⟨"syntax", e.msg, some (path.getLast?.getD ""), some e.line⟩] ∧
+    1 ≤ e.line ∧ e.line ≤ 1 + nl src.toList := by
+  refine ⟨by simp [loadFile, h], parseText_lines src e h⟩
 
 /-- the reference front end is total: for every file system, root and fuel it returns a
 tree or an error value (a typing fact, recorded as a theorem for the audit) -/
